@@ -42,6 +42,8 @@ def run(ctx):
     ctx.step(shared, ctx)
     ctx.step(capture, ctx)
     ctx.step(owned_functor, ctx)
+    ctx.step(common.no_move_from_callers_object, ctx, "C06.forward",
+             [f for f in ctx.fb.functions() if f.file.endswith("/deferred_guarded.hpp")], floor=20)
     ctx.step(exception_identity, ctx, "C06.exc")
     ctx.step(common.raii_only, ctx, "C06.raii", ["deferred_guarded.hpp"], floor=20)
     ctx.step(common.witnesses, ctx, "C06.witness", ["C06"])
